@@ -247,11 +247,15 @@ def rejectInner (A : Arith) (caps : WrapCaps) (v : CoreView) (hasLocal : Bool) (
 theorem optimizeInner_zero {σ : Type} (A : Arith) (caps : WrapCaps) (E : Env σ) (mk : Prob → Alg) (fuel : Nat)
     (v : CoreView) (hl : Bool) (x : List F64) (f0 : F64) (st : σ) (hn : v.n = 0) :
     optimizeInner A caps E mk fuel v hl x f0 st =
-      (some { ret := rSUCCESS, x := x, minf := (E.call st { fn := .obj, x := x, wantGrad := false }).2.val.headD f0,
+      (some { ret := (match (E.call st { fn := .obj, x := x, wantGrad := false }).2.stop with
+                      | some s => if s ≠ 0 then rFORCED else rSUCCESS | none => rSUCCESS),
+              x := x, minf := (E.call st { fn := .obj, x := x, wantGrad := false }).2.val.headD f0,
               numevals := 1,
               atrace := [({ fn := .obj, x := x, wantGrad := false }, (E.call st { fn := .obj, x := x, wantGrad := false }).2)] },
        (E.call st { fn := .obj, x := x, wantGrad := false }).1, false) := by
-  simp [optimizeInner, hn]
+  unfold optimizeInner
+  rw [if_pos hn]
+  rfl
 
 theorem optimizeInner_reject {σ : Type} (A : Arith) (caps : WrapCaps) (E : Env σ) (mk : Prob → Alg) (fuel : Nat)
     (v : CoreView) (hl : Bool) (x : List F64) (f0 : F64) (st : σ) (hn : v.n ≠ 0)
@@ -782,11 +786,14 @@ theorem innerRun_zero {σ : Type} (A : Arith) (caps : WrapCaps) (U : Env σ) (mk
       let uq := startQuery caps v x
       let r := U.call st uq
       let ma := L.algAnswer {} uq r.2
-      (some { ret := rSUCCESS, x := innerX caps v x, minf := ma.2.val.headD f0, numevals := 1, atrace := [(q0, ma.2)] },
+      (some { ret := (match r.2.stop with | some s => if s ≠ 0 then rFORCED else rSUCCESS | none => rSUCCESS),
+              x := innerX caps v x, minf := ma.2.val.headD f0, numevals := 1, atrace := [(q0, ma.2)] },
        ((r.1, [(uq, r.2)]), ma.1), false) := by
   unfold innerRun
   rw [optimizeInner_zero _ _ _ _ _ _ _ _ _ _ hn]
-  simp only [wrappedEnv_call_init, List.nil_append]
+  have hstop : ∀ (L : Layers) (m : MemoSt) (uq : Query) (a : Answer), (L.algAnswer m uq a).2.stop = a.stop := by
+    intro L m uq a; unfold Layers.algAnswer; cases uq.fn <;> rfl
+  simp only [wrappedEnv_call_init, List.nil_append, hstop]
   rfl
 
 /-- after one memo step from the initial memo: nothing recorded, or exactly this point and value -/
